@@ -122,6 +122,20 @@ func (b *balancer) exprOps(pkg *packages.Package, n ast.Node, depth int) [][]lop
 				cur = cross(cur, [][]lop{{{Op: op, Lock: id}}})
 				return false
 			}
+			// a function literal handed to the call as an argument (walkIPRanges(ranges, func(ip) bool {...}), sort.Slice,
+			// wait.PollImmediate ...) runs while the caller still holds what it holds: its lock operations happen here - or
+			// not at all, when the callee does not invoke it.  Calls that only REGISTER the literal for later are excluded.
+			if cb := b.callbackOps(pkg, c, depth); cb != nil {
+				for _, a := range c.Args {
+					if _, isLit := a.(*ast.FuncLit); !isLit {
+						cur = cross(cur, b.exprOps(pkg, a, depth))
+					}
+				}
+				cur = cross(cur, cb)
+				if fn := b.w.staticCallee(c); fn == nil || !b.hasLock[funcKey(fn)] {
+					return false
+				}
+			}
 			if fn := b.w.staticCallee(c); fn != nil && b.hasLock[funcKey(fn)] && depth < 3 {
 				if fi := b.prog.funcs[funcKey(fn)]; fi != nil && !b.active[fi.key] {
 					callee := b.funcPaths(fi.key, fi.pkg, fi.decl.Body, depth+1)
@@ -141,6 +155,44 @@ func (b *balancer) exprOps(pkg *packages.Package, n ast.Node, depth int) [][]lop
 		return true
 	})
 	return cur
+}
+
+// registering calls: the literal runs later, on another goroutine or after the caller returned
+var deferredCallbackCallee = map[string]bool{"AfterFunc": true, "AddEventHandler": true, "AddEventHandlerWithResyncPeriod": true,
+	"HandleFunc": true, "Handle": true, "Route": true, "To": true, "OnStartedLeading": true, "NewTimer": true}
+
+// callbackOps: the alternatives "not invoked" / "invoked once" for the function literals with lock operations among the
+// arguments of a call; nil when there is none
+func (b *balancer) callbackOps(pkg *packages.Package, c *ast.CallExpr, depth int) [][]lop {
+	name := ""
+	switch f := c.Fun.(type) {
+	case *ast.Ident:
+		name = f.Name
+	case *ast.SelectorExpr:
+		name = f.Sel.Name
+	}
+	if deferredCallbackCallee[name] {
+		return nil
+	}
+	var out [][]lop
+	for _, a := range c.Args {
+		fl, ok := a.(*ast.FuncLit)
+		if !ok || !containsLockOps(b, pkg, fl.Body) {
+			continue
+		}
+		ps := b.stmts(pkg, fl.Body.List, depth+1)
+		alts := [][]lop{{}}
+		for _, p := range append(append([][]lop{}, ps.open...), ps.done...) {
+			alts = append(alts, expandDefers(p))
+		}
+		alts = dedupe(alts)
+		if out == nil {
+			out = alts
+		} else {
+			out = cross(out, alts)
+		}
+	}
+	return out
 }
 
 func expandDefers(p []lop) []lop {
